@@ -701,10 +701,17 @@ func parseClause(s string) (*Clause, error) {
 func parseSpecFunc(s string, macro bool) (*SpecFunc, error) {
 	s = strings.TrimSpace(s)
 	opaque := false
+	axiomatic := false
 	if !macro {
 		if strings.HasPrefix(s, "opaque ") {
 			opaque = true
 			s = strings.TrimSpace(s[7:])
+		}
+		if strings.HasPrefix(s, "axiomatic ") {
+			// defined by a quantified definitional axiom instead of a macro
+			// (`define-fun`), so that applications of it may occur in patterns
+			axiomatic = true
+			s = strings.TrimSpace(s[10:])
 		}
 		if !strings.HasPrefix(s, "func ") {
 			return nil, fmt.Errorf("want: spec [opaque] func name(...) Sort")
@@ -721,7 +728,7 @@ func parseSpecFunc(s string, macro bool) (*SpecFunc, error) {
 		return nil, err
 	}
 	p := &parser{toks: toks}
-	sf := &SpecFunc{Macro: macro, Opaque: opaque}
+	sf := &SpecFunc{Macro: macro, Opaque: opaque, Axiomatic: axiomatic}
 	func() {
 		defer func() {
 			if r := recover(); r != nil {
